@@ -134,8 +134,6 @@ def compactCells (sched : Nat → Bool) (cells : Array (BitVec 64)) : R (Array (
         | (none, a) => (.error .memoryAlloc, a.free r)
         | (some h, a) => compactRounds sched numHexes r h 17 cells numHexes #[] a
 
-def noFail : Nat → Bool := fun _ => false
-
 /-- `uncompactCells`: cells written (in order) and the error if any -/
 def uncompactCells (compacted : List (BitVec 64)) (numOut : Int) (res : Int) : Option H3Error × Array (BitVec 64) :=
   let rec go (l : List (BitVec 64)) (out : Array (BitVec 64)) : Option H3Error × Array (BitVec 64) :=
